@@ -22,6 +22,15 @@ CLAIMED = {
              note='the model holds payloads by value, so object aliasing (buffer reuse) is detected by the held-reference test in the correspondence, not by the theorem', tech='Coq proof (step lemmas, induction over schedules) + correspondence with held references', ref='4 C11'),
  'C16': dict(text='frames_rx of the model = count_sentences for every byte list, from any idle state and under every chunking; the spec predicate is characterised against the property text (Coq, continuation invariant); NmeaParser compared with model, extracted spec and an independent Python transcription, exhaustively over all strings of length <= 3 (quick) / 4 (thorough) over 7 byte classes around valid sentences',
              note='hand model of the 5-state machine tied by differential testing', tech='Coq proof (generalised counting invariant) + exhaustive small-string correspondence', ref='4 C16'),
+ 'C07': dict(text='generic theorems: decode of any fixed / count-prefixed (every block count) / MON-VER layout yields exactly the values at each field\'s offset, width, signedness, little-endian, text NUL-stripped (Coq, induction on layouts); per run the layout tables are regenerated from /repo by reflection and proved equal to a hand-written u-blox layout oracle with explicit offsets (vm_compute over the finite table), so the generic theorems instantiate to every message class; construct() compared with the model AND with the extracted oracle decoder on generated payloads incl. all block counts, with interleaved decoding of other instances',
+             note='oracle layouts transcribed from memory (no access to the PDF); frame-object independence (aliasing) is covered by the interleaving test and the reflective extractor, not by the theorem (pure model) - partial',
+             tech='Coq proof (generic layout lemmas) + per-run table obligations over reflected layouts (Tie B) + correspondence (Tie A)', ref='4 C07'),
+ 'C08': dict(text='encode(decode p) = p with reserved bytes zeroed; decode(encode fs) = fs for every in-range assignment; editing one field changes only that field\'s bytes - for every layout, hence (through the expanded layouts) fixed and variable-length messages alike (Coq); construct()/pack()/attribute assignment compared with the model, with the oracle zero_reserved, and locality checked directly on the implementation for every field',
+             note='hand model of types.py tied by differential testing; CH text = valid UTF-8 that fits and has no trailing NUL', tech='Coq proof (induction on field lists, codec inverses) + correspondence', ref='4 C08'),
+ 'C13': dict(text='item round trip for every group 0..255, item 0..4095, size 8/16/32/64 (and 1-bit), signedness and in-range value: 4+width bytes, first four = little-endian key id size<<28|group<<16|item, decode returns the same group/item/size and the value (exactly, whenever packed with the key\'s documented signedness or below the sign bit); every key with zero reserved bits built by from_key encodes to that key (Coq, bit-field arithmetic); per run the published key constants and the signedness table regenerated from /repo are checked against a two-entry documented-signed oracle and instantiated; correspondence incl. all 256x4096x5 headers (thorough)',
+             note='"in-range" read as in range for the packing type; a negative value packed as signed for a key documented unsigned cannot be recovered by any decoder of this wire format (characterised by reinterp, not claimed)', tech='Coq proof + per-run table obligations (Tie B) + correspondence (Tie A)', ref='4 C13'),
+ 'C14': dict(text='dichotomy for every byte string and every signedness table: ValueError, or a consumed prefix that re-encodes to itself with reserved bits cleared; only ValueError can be raised by decode and by encode; short data, size codes 0/6/7, 1-bit values >1, short values, out-of-range constructor arguments all raise ValueError; VALSET = header + items in order, VALGET poll = header + keys in order, VALGET response = successive pairs tiling the payload up to a <4-byte tail or ValueError; loop fuel never binding (Coq); implementation compared with the model and the dichotomy evaluated directly on it',
+             note='1-bit items coerce any value by truthiness (documented by the code); a trailing fragment < 4 bytes of a VALGET response is ignored', tech='Coq proof (case analysis on size code, fuelled loop) + correspondence + dichotomy oracle', ref='4 C13/C14'),
 }
 PENDING_REASON = 'check under construction in this round; not yet claimed'
 def main():
